@@ -76,6 +76,26 @@ pub open spec fn expected(a: &CannotDerive, item: &Item, ty: &Type) -> CanDerive
         }
     }
 }
+// ---- the node-level rule (MonotoneFramework::constrain): declared order Yes < Manually < No
+pub open spec fn cd_rank(v: CanDerive) -> int { match v { CanDerive::Yes => 0, CanDerive::Manually => 1, CanDerive::No => 2 } }
+pub fn cd_lt(a: CanDerive, b: CanDerive) -> (r: bool) ensures r == (cd_rank(a) < cd_rank(b)) {
+    match (a, b) { (CanDerive::Yes, CanDerive::Yes) => false, (CanDerive::Yes, _) => true, (CanDerive::Manually, CanDerive::No) => true, _ => false }
+}
+pub open spec fn cd_at(m: Map<ItemId, CanDerive>, k: ItemId) -> CanDerive { if m.contains_key(k) { m[k] } else { CanDerive::Yes } }
+pub open spec fn cd_join(a: CanDerive, b: CanDerive) -> CanDerive { if cd_rank(b) > cd_rank(a) { b } else { a } }
+// what the rule computes for node `id` from the current table: the per-type rule, made conservative
+// ("arrays beyond the 32-element limit": a type aligned beyond the limit may get a padding array that long)
+pub open spec fn node_rule(a: &CannotDerive, id: ItemId) -> CanDerive {
+    let item = a.ctx.s_item(id);
+    match item.s_as_type() {
+        Some(ty) => {
+            let c = expected(a, &item, &ty);
+            if c == CanDerive::Yes && a.derive_trait == DeriveTrait::Default
+               && (match ty.s_layout(a.ctx) { Some(l) => l.align > RUST_DERIVE_IN_ARRAY_LIMIT, None => false }) { CanDerive::Manually } else { c }
+        },
+        None => s_join(a, &item, EdgePredicate::Default),
+    }
+}
 // invariants of the IR at analysis time that the real code asserts
 pub open spec fn ir_ok(ctx: &BindgenContext, item: &Item, ty: &Type) -> bool {
     &&& (ty.s_kind() is Opaque ==> item.s_opaque(ctx))
@@ -94,7 +114,7 @@ def tbl(name, ens, **kw):
 UNIT = {
     "name": "constrain",
     "env": [os.path.join(ENV, "constrain_env.rs")],
-    "declared_trusted": {r"external_body": 42},
+    "declared_trusted": {r"external_body": 49},
     "items": [
         {"kind": "const", "file": "bindgen/ir/ty.rs", "name": "RUST_DERIVE_IN_ARRAY_LIMIT"},
         {"kind": "enum", "file": "bindgen/ir/derive.rs", "name": "CanDerive", "prefix": "#[derive(Copy, Clone, PartialEq, Eq, Structural)]"},
@@ -128,6 +148,33 @@ UNIT = {
          "ensures": [
              "r == expected(old(self), item, ty)",
              "*final(self) == *old(self)",
+         ]},
+        {"kind": "enum", "file": "bindgen/ir/analysis/mod.rs", "name": "ConstrainResult", "prefix": "#[derive(Copy, Clone, PartialEq, Eq, Structural)]"},
+        {"kind": "fn", "file": DR, "name": "insert", **CD, "ret": "r",
+         "subst": [("<Id: Into<ItemId>>", "", 1, "R12"), ("id: Id,", "id: ItemId,", 1, "R12"), ("let id = id.into();", "", 1, "R12"),
+                   ("match self.can_derive.entry(id) {", "match map_entry(&self.can_derive, &id) {", 1, "R17"),
+                   ("Entry::Occupied(mut entry) =>", "EntryKind::Occupied =>", 1, "R17"),
+                   ("*entry.get() < can_derive", "cd_lt(map_get(&self.can_derive, &id), can_derive)", 1, "R17"),
+                   ("entry.insert(", "map_insert(&mut self.can_derive, id, ", 2, "R17"),
+                   ("Entry::Vacant(entry) =>", "EntryKind::Vacant =>", 1, "R17")],
+         "ensures": [
+             "forall|k| k != id ==> cd_at(final(self).can_derive.view(), k) == cd_at(old(self).can_derive.view(), k)",
+             "cd_at(final(self).can_derive.view(), id) == cd_join(cd_at(old(self).can_derive.view(), id), can_derive)",
+             "(r == ConstrainResult::Changed) == (cd_rank(can_derive) > cd_rank(cd_at(old(self).can_derive.view(), id)))",
+             "final(self).ctx == old(self).ctx && final(self).derive_trait == old(self).derive_trait",
+         ]},
+        {"kind": "fn", "file": DR, "name": "constrain", "impl": r"^impl<'ctx> MonotoneFramework for CannotDerive<'ctx>$", "impl_header": "impl<'ctx> CannotDerive<'ctx>", "impl_name": "CannotDerive", "ret": "r",
+         "subst": [
+             ("let is_reached_limit = |l: Layout| l.align > RUST_DERIVE_IN_ARRAY_LIMIT;", "", 1, "R7"),
+             ("ty.layout(self.ctx).is_some_and(is_reached_limit)", "(match ty.layout(self.ctx) { Some(l) => l.align > RUST_DERIVE_IN_ARRAY_LIMIT, None => false })", 1, "R7 closure applied"),
+             ("self.constrain_join(item, consider_edge_default)", "self.constrain_join(item, EdgePredicate::Default)", 1, "R5"),
+         ],
+         "requires": ["old(self).ctx.s_item(id).s_as_type().is_some() ==> ir_ok(old(self).ctx, &old(self).ctx.s_item(id), &old(self).ctx.s_item(id).s_as_type().unwrap())"],
+         "ensures": [
+             "forall|k| k != id ==> cd_at(final(self).can_derive.view(), k) == cd_at(old(self).can_derive.view(), k)",
+             # fix-point equation
+             "cd_at(final(self).can_derive.view(), id) == cd_join(cd_at(old(self).can_derive.view(), id), node_rule(old(self), id))",
+             "(r == ConstrainResult::Changed) == (cd_at(final(self).can_derive.view(), id) != cd_at(old(self).can_derive.view(), id))",
          ]},
     ],
 }
